@@ -853,4 +853,194 @@ theorem chanPop_W {cfg : Cfg} (hk : cfg.popSkipsStaleWriter = true) {w : World} 
         exact hliveIn1 c'
       · rw [hw']; exact hff
 
+/-! ### select -/
+
+theorem liveEntry_of_liveIn {fb : Fibers} {en : Ent} {f c : Nat} (h : liveIn fb en f c) : liveEntry fb en f := ⟨c, h⟩
+
+theorem choiceImmediate_W {cfg : Cfg} (hg : CfgGood cfg) (f : Nat) (cls : List Clause) :
+    ∀ (w w' : World) (v : Val), choiceImmediate cfg w f cls = some (w', v) →
+      WM w → w.current = some f → WQuiet w f → WM w' ∧ w'.current = some f ∧ WQuiet w' f := by
+  induction cls with
+  | nil => intro w w' v h; simp [choiceImmediate] at h
+  | cons cl rest ih =>
+    intro w w' v h hm hcur hq
+    have hnc : ∀ c, ¬ liveIn w.fibers w.ent f c := fun c hh => hq.2.2 ⟨c, hh⟩
+    cases cl with
+    | give c x =>
+      unfold choiceImmediate at h
+      by_cases hcl : (w.chans c).closed = true
+      · simp [hcl] at h; rw [← h.1]; exact ⟨hm, hcur, hq⟩
+      · simp only [hcl] at h
+        by_cases hr : (choiceReady cfg (w.chans c).items.length (w.chans c).limit
+            || (cfg.choiceGiveSeesReader && hasLiveReader w.fibers (w.chans c).readPending)) = true
+        · simp only [hr] at h
+          cases hp : chanPush cfg w f c x 1 with
+          | closedErr => rw [hp] at h; simp at h; rw [← h.1]; exact ⟨hm, hcur, hq⟩
+          | ok w1 b =>
+            rw [hp] at h; simp at h; rw [← h.1]
+            have hb : b = false := by
+              rw [give_blocks_iff cfg hg.strict w f c x 1 w1 b hp]
+              simp only [choiceReady, hg.ready, hg.sees, ↓reduceIte, Bool.true_and, Bool.or_eq_true,
+                decide_eq_true_eq] at hr
+              rcases hr with hr | hr
+              · right; exact hr
+              · left; exact hr
+            obtain ⟨h1, h2, h3, h4, h5, h6, _⟩ := chanPush_W hg.strict hp hm hcur hq.1 hq.2.1 (hnc c) (by decide)
+            refine ⟨h1, h2, h3, h4, ?_⟩
+            rintro ⟨c', hl⟩
+            by_cases e : c' = c
+            · subst e; have := h6.mp hl; rw [hb] at this; cases this
+            · exact hnc c' ((h5 c' e).mp hl)
+        · simp only [hr] at h
+          exact ih w w' v (by simpa using h) hm hcur hq
+    | take c =>
+      unfold choiceImmediate at h
+      by_cases hcl : (w.chans c).closed = true
+      · simp [hcl] at h; rw [← h.1]; exact ⟨hm, hcur, hq⟩
+      · simp only [hcl] at h
+        by_cases hi : (w.chans c).items = []
+        · simp [hi] at h; exact ih w w' v h hm hcur hq
+        · simp [hi] at h
+          have hpw := chanPop_W hg.skips (mode := 1) hm hcur hq.1 hq.2.1 (hnc c) (by decide)
+          cases hp : chanPop cfg w f c 1 with
+          | blocked w1 =>
+            have := (take_blocks_iff cfg w f c 1 (by simpa using hcl)).mp ⟨w1, hp⟩
+            exact absurd this hi
+          | got w1 r =>
+            rw [hp] at h
+            obtain ⟨h1, h2, h3, h4, h5, _⟩ := hpw.1 w1 r hp
+            have hq1 : WQuiet w1 f := ⟨h3, h4, fun ⟨c', hl⟩ => hnc c' ((h5 c').mp hl)⟩
+            cases r with
+            | none => simp at h; rw [← h.1]; exact ⟨h1, h2, hq1⟩
+            | some x => simp at h; rw [← h.1]; exact ⟨h1, h2, hq1⟩
+
+/-- what the first loop of select has established when it falls through -/
+def Cond (cfg : Cfg) (w : World) : Clause → Prop
+  | .give c _ => (w.chans c).closed = false ∧ ¬ (w.chans c).items.length < (w.chans c).limit ∧
+                 hasLiveReader w.fibers (w.chans c).readPending = false
+  | .take c => (w.chans c).closed = false ∧ (w.chans c).items = []
+
+theorem Cond_congr {cfg : Cfg} {w w' : World} (cl : Clause) (hf : w'.fibers = w.fibers)
+    (hc : w'.chans cl.chan = w.chans cl.chan) (h : Cond cfg w cl) : Cond cfg w' cl := by
+  cases cl with
+  | give c x => simp only [Cond, Clause.chan] at h hc ⊢; rw [hf, hc]; exact h
+  | take c => simp only [Cond, Clause.chan] at h hc ⊢; rw [hc]; exact h
+
+theorem choiceImmediate_none {cfg : Cfg} (hg : CfgGood cfg) (w : World) (f : Nat) (cls : List Clause)
+    (h : choiceImmediate cfg w f cls = none) : ∀ cl ∈ cls, Cond cfg w cl := by
+  induction cls with
+  | nil => intro cl hcl; simp at hcl
+  | cons cl rest ih =>
+    cases cl with
+    | give c x =>
+      unfold choiceImmediate at h
+      by_cases hcl : (w.chans c).closed = true
+      · simp [hcl] at h
+      · simp only [hcl] at h
+        by_cases hr : (choiceReady cfg (w.chans c).items.length (w.chans c).limit
+            || (cfg.choiceGiveSeesReader && hasLiveReader w.fibers (w.chans c).readPending)) = true
+        · simp only [hr] at h
+          cases hp : chanPush cfg w f c x 1 <;> (rw [hp] at h; simp at h)
+        · simp only [hr] at h
+          intro cl' hcl'
+          rcases List.mem_cons.mp hcl' with e | e
+          · subst e
+            simp only [choiceReady, hg.ready, hg.sees, ↓reduceIte, Bool.true_and, Bool.or_eq_true, decide_eq_true_eq,
+              not_or] at hr
+            exact ⟨by simpa using hcl, hr.1, by simpa using hr.2⟩
+          · exact ih (by simpa using h) cl' e
+    | take c =>
+      unfold choiceImmediate at h
+      by_cases hcl : (w.chans c).closed = true
+      · simp [hcl] at h
+      · simp only [hcl] at h
+        by_cases hi : (w.chans c).items = []
+        · simp [hi] at h
+          intro cl' hcl'
+          rcases List.mem_cons.mp hcl' with e | e
+          · subst e; exact ⟨by simpa using hcl, hi⟩
+          · exact ih h cl' e
+        · simp [hi] at h
+          cases hp : chanPop cfg w f c 1 with
+          | blocked w1 => rw [hp] at h; simp at h
+          | got w1 r => rw [hp] at h; cases r <;> simp at h
+
+theorem chanPush_open {cfg : Cfg} (w : World) (f c x mode : Nat) (h : (w.chans c).closed = false) :
+    ∃ w' b, chanPush cfg w f c x mode = .ok w' b := by
+  unfold chanPush
+  simp only [h, Bool.false_eq_true, ↓reduceIte]
+  rcases popLiveReader (addPushed w c x).fibers (w.chans c).readPending with ⟨r, rp⟩
+  cases r with
+  | none =>
+    simp only []
+    split
+    · split <;> exact ⟨_, _, rfl⟩
+    · exact ⟨_, _, rfl⟩
+  | some r => exact ⟨_, _, rfl⟩
+
+/-- the registration loop of select, when the first loop fell through and no channel is named twice: it only registers -/
+theorem choiceRegister_W {cfg : Cfg} (hg : CfgGood cfg) (f : Nat) (cls : List Clause) :
+    ∀ (w : World), WM w → w.current = some f → LT w.fibers w.runq f = 0 → ¬ liveTimer w.fibers w.timers f →
+      (∀ cl ∈ cls, Cond cfg w cl ∧ ¬ liveIn w.fibers w.ent f cl.chan) → (cls.map Clause.chan).Nodup →
+      WM (choiceRegister cfg w f cls) ∧ (choiceRegister cfg w f cls).current = some f ∧
+      LT (choiceRegister cfg w f cls).fibers (choiceRegister cfg w f cls).runq f = 0 ∧
+      ¬ liveTimer (choiceRegister cfg w f cls).fibers (choiceRegister cfg w f cls).timers f ∧
+      (∀ cl ∈ cls, liveIn (choiceRegister cfg w f cls).fibers (choiceRegister cfg w f cls).ent f cl.chan) ∧
+      (∀ c, liveIn w.fibers w.ent f c → liveIn (choiceRegister cfg w f cls).fibers (choiceRegister cfg w f cls).ent f c) := by
+  induction cls with
+  | nil => intro w hm hcur hlt hnt _ _; exact ⟨hm, hcur, hlt, hnt, fun cl h => by simp at h, fun c h => h⟩
+  | cons cl rest ih =>
+    intro w hm hcur hlt hnt hcond hnd
+    have hnd2 := List.nodup_cons.mp (show (cl.chan :: rest.map Clause.chan).Nodup from hnd)
+    have hnd' : (rest.map Clause.chan).Nodup := hnd2.2
+    have hnotin : ∀ cl' ∈ rest, cl'.chan ≠ cl.chan := by
+      intro cl' hcl' e
+      exact hnd2.1 (by rw [← e]; exact List.mem_map_of_mem (f := Clause.chan) hcl')
+    obtain ⟨hc0, hn0⟩ := hcond cl (by simp)
+    -- one step: a world w1 with the clause registered
+    have step : ∃ w1, choiceRegister cfg w f (cl :: rest) = choiceRegister cfg w1 f rest ∧
+        WM w1 ∧ w1.current = some f ∧ LT w1.fibers w1.runq f = 0 ∧ ¬ liveTimer w1.fibers w1.timers f ∧
+        (∀ c', c' ≠ cl.chan → (liveIn w1.fibers w1.ent f c' ↔ liveIn w.fibers w.ent f c')) ∧
+        liveIn w1.fibers w1.ent f cl.chan ∧ w1.fibers = w.fibers ∧ (∀ c', c' ≠ cl.chan → w1.chans c' = w.chans c') := by
+      cases cl with
+      | give c x =>
+        simp only [Cond, Clause.chan] at hc0 hn0 ⊢
+        obtain ⟨w1, b, hp⟩ := chanPush_open (cfg := cfg) w f c x 1 hc0.1
+        refine ⟨w1, by simp [choiceRegister, hp], ?_⟩
+        obtain ⟨h1, h2, h3, h4, h5, h6, _⟩ := chanPush_W hg.strict hp hm hcur hlt hnt hn0 (by decide)
+        obtain ⟨_, _, hoth, hcase⟩ := chanPush_cases cfg hg.strict w f c x 1 w1 b hp
+        rcases hcase with ⟨_, hfib, _, _, hb, _⟩ | ⟨r, rest', hq, _⟩
+        · have hbt : b = true := by rw [hb]; simp; omega
+          exact ⟨h1, h2, h3, h4, h5, h6.mpr hbt, hfib, hoth⟩
+        · have := (popLiveReader_spec w.fibers _ _ _ hq).2.2 r rfl
+          rw [hc0.2.2] at this; cases this.2.2
+      | take c =>
+        simp only [Cond, Clause.chan] at hc0 hn0 ⊢
+        have hpw := chanPop_W hg.skips (mode := 1) hm hcur hlt hnt hn0 (by decide)
+        cases hp : chanPop cfg w f c 1 with
+        | got w1 r =>
+          obtain ⟨w2, hb⟩ := (take_blocks_iff cfg w f c 1 hc0.1).mpr hc0.2
+          rw [hp] at hb; cases hb
+        | blocked w1 =>
+          refine ⟨w1, by simp [choiceRegister, hp], ?_⟩
+          obtain ⟨h1, h2, h3, h4, h5, h6, _, h8, h9⟩ := hpw.2 w1 hp
+          exact ⟨h1, h2, h3, h4, h5, h6, h8, h9⟩
+    obtain ⟨w1, heq, h1, h2, h3, h4, h5, h6, h7, h8⟩ := step
+    rw [heq]
+    have hcond1 : ∀ cl' ∈ rest, Cond cfg w1 cl' ∧ ¬ liveIn w1.fibers w1.ent f cl'.chan := by
+      intro cl' hcl'
+      obtain ⟨a, b⟩ := hcond cl' (List.mem_cons_of_mem _ hcl')
+      have hne := hnotin cl' hcl'
+      exact ⟨Cond_congr cl' h7 (h8 _ hne) a, fun hl => b ((h5 _ hne).mp hl)⟩
+    obtain ⟨i1, i2, i3, i4, i5, i6⟩ := ih w1 h1 h2 h3 h4 hcond1 hnd'
+    refine ⟨i1, i2, i3, i4, ?_, ?_⟩
+    · intro cl' hcl'
+      rcases List.mem_cons.mp hcl' with e | e
+      · subst e; exact i6 _ h6
+      · exact i5 cl' e
+    · intro c hl
+      by_cases e : c = cl.chan
+      · subst e; exact absurd hl hn0
+      · exact i6 c ((h5 c e).mpr hl)
+
 end JanetModel.Ev
